@@ -192,7 +192,9 @@ def check_C19(rep, known):
     import random
     rng = random.Random(rep.seed)
     n = 3000 if rep.tier == 'thorough' else 320
-    recs = rng.sample(recs, min(n, len(recs)))
+    plain = [r for r in recs if not r['sc']['scaled']]
+    scaled = [r for r in recs if r['sc']['scaled']]
+    recs = rng.sample(plain, min(n, len(plain))) + rng.sample(scaled, min(n // 8, len(scaled)))
     outs = engine.pool_map('funs', 'replay', recs)
     engine.process_results(rep, recs, outs, [r'C19\.'], known)
 
